@@ -73,13 +73,12 @@ func (cm *FairMQ) Commit(evt string, src string, dst string, args map[string]str
 	case "RESET":
 		finalState, err = cm.doReset(evt, src, dst, args)
 	case "EXIT":
-		var state string
 		if src == "CONFIGURED" { // We need to RESET first
-			state, err = cm.doReset(evt, src, dst, args)
-			if state != "STANDBY" {
-				finalState = state
+			finalState, err = cm.doReset(evt, src, "STANDBY", args)
+			if finalState != "STANDBY" {
 				break
 			}
+			src = "STANDBY" // the device is now in IDLE, END must be requested from there
 		}
 		finalState, err = cm.DoTransition(EventInfo{fairmq.EvtEND, cm.fmqStateForState(src), cm.fmqStateForState(dst), args})
 		finalState = cm.stateForFmqState(finalState)
